@@ -27,7 +27,7 @@ Qed.
 (* ------------------------------------------------------------------ unfolding and step inversion *)
 Ltac unf :=
   unfold set_fp, set_gtl, set_ghd, after_event, signal in *;
-  unfold set_dq, set_hp, set_ctr, set_batch, set_handling, set_gs, set_ngen, set_nother, set_cur,
+  unfold set_watched, set_dq, set_hp, set_ctr, set_batch, set_handling, set_gs, set_ngen, set_nother, set_cur,
          set_lock, set_flag, set_pipe, set_lp, set_fts, set_disp in *.
 
 Ltac break_match H :=
@@ -81,7 +81,7 @@ Ltac eqb_all :=
          | H : Nat.eqb _ _ = false |- _ => apply Nat.eqb_neq in H
          end.
 
-Ltac prj := cbn [md dq hp ctr batch handling gs ngen nother cur lock flag pipe lp fts disp] in *.
+Ltac prj := cbn [md pk watched dq hp ctr batch handling gs ngen nother cur lock flag pipe lp fts disp] in *.
 
 Ltac rw_pc :=
   repeat match goal with
@@ -141,7 +141,8 @@ Definition is_w (p : lpc) : bool :=
 Definition is_p (p : lpc) : bool := match p with PRead | PSel _ | PDrain => true | _ => false end.
 Definition wpre (p : lpc) : bool := match p with WRel | WTestPos | WRdTl | WTestNeg => true | _ => false end.
 Definition bl (p : lpc) : bool := match p with WWaitT Pos | WWaitU | PSel Neg | PSel Pos => true | _ => false end.
-Definition signalled (s : state) : bool := match md s with Fallback => flag s | Poller => 0 <? pipe s end.
+Definition signalled (s : state) : bool :=
+  match md s with Fallback => flag s | Poller => watched s && (0 <? pipe s) end.
 Definition tlc (s : state) : tl := gtl (gs s (cur s)).
 
 Definition fg (p : fpc) : option (option nat) :=
@@ -177,7 +178,8 @@ Record Inv (s : state) : Prop := {
   j2 : signalled s = false -> (bl (lp s) = true \/ (wpre (lp s) = true /\ tlc s <> Zero)) ->
        forall i k, In (EvF i k) (pending s) -> inflight s i k;
   j3 : signalled s = false -> bl (lp s) = true -> tlc s = Zero ->
-       exists i, fl_post (fp (fts s i)) = true
+       exists i, fl_post (fp (fts s i)) = true;
+  iw : pk s = true /\ watched s = true
 }.
 
 Lemma Inv_init m : Inv (init m).
@@ -188,7 +190,11 @@ Proof.
 Qed.
 
 Ltac prep :=
-  simpl; unfold inflight in *; unfold tlc, signalled, pending in *; simpl; rw_pc; eqb_all;
+  simpl; unfold inflight in *; unfold tlc, signalled, pending in *; simpl;
+  repeat match goal with
+         | Hw : watched ?s = true |- _ => rewrite ?Hw in *; clear Hw
+         | Hk : pk ?s = true |- _ => rewrite ?Hk in *; clear Hk
+         end; simpl; rw_pc; eqb_all;
   unfold upd in *; rewrite ?Nat.eqb_refl in *; simpl in *;
   repeat match goal with
          | H : context [match batch ?s with _ => _ end] |- _ => destruct (batch s); simpl in H
@@ -271,7 +277,7 @@ Ltac use_j2 :=
 Lemma Inv_lstep a s s' : Inv s -> lstep a s = Some s' -> Inv s'.
 Proof.
   intros HI H. pose proof (I0_lstep _ _ _ (i0 _ HI) H) as i0'.
-  destruct HI as [i0 ih ih2 if1 if2 ir imd ihd ia j1 j2 j3].
+  destruct HI as [i0 ih ih2 if1 if2 ir imd ihd ia j1 j2 j3 [iwk iww]].
   lstep_cases H; (constructor; [exact i0' | clear i0' ..]); prep; gen.
   all: clear ir ih ih2 imd ihd.
   all: try (apply must_write_zero; assumption).
@@ -298,8 +304,8 @@ Ltac spec_i :=
                pose proof (H j); fail 1 end
          end.
 
-Lemma sig_true s : signalled (signal s) = true.
-Proof. unfold signalled, signal; simpl. destruct (md s); reflexivity. Qed.
+Lemma sig_true s : watched s = true -> signalled (signal s) = true.
+Proof. intros H. unfold signalled, signal; simpl. rewrite H. destruct (md s); reflexivity. Qed.
 
 Lemma in_snoc {A} (x y : A) l : In x (l ++ [y]) -> In x l \/ x = y.
 Proof. intros H. apply in_app_or in H. destruct H as [H|[H|[]]]; auto. Qed.
@@ -345,10 +351,10 @@ Lemma infl_held p : infl_pc p = true -> 0 < fheld p.
 Proof. destruct p as [| | | |? []| |]; simpl; intros; try discriminate; lia. Qed.
 
 (* thread i0 is inside its critical section but not about to signal: in a blocked state time_left is not 0 *)
-Lemma holder_nonzero s i0 :
+Lemma holder_nonzero (P : Prop) s i0 :
   I0 s ->
-  (signalled s = false -> bl (lp s) = true -> tlc s = Zero -> exists i, fl_post (fp (fts s i)) = true) ->
-  signalled s = false -> bl (lp s) = true ->
+  (P -> bl (lp s) = true -> tlc s = Zero -> exists i, fl_post (fp (fts s i)) = true) ->
+  P -> bl (lp s) = true ->
   0 < fheld (fp (fts s i0)) -> fl_post (fp (fts s i0)) = false -> tlc s <> Zero.
 Proof.
   intros HI J3 Hs Hb Hh Hp Hz. destruct (J3 Hs Hb Hz) as [w Hw].
@@ -360,7 +366,7 @@ Qed.
 Lemma Inv_fstep i0' a s s' : Inv s -> fstep i0' a s = Some s' -> Inv s'.
 Proof.
   intros HI H. pose proof (I0_fstep _ _ _ _ (i0 _ HI) H) as i0''.
-  destruct HI as [i0 ih ih2 if1 if2 ir imd ihd ia j1 j2 j3].
+  destruct HI as [i0 ih ih2 if1 if2 ir imd ihd ia j1 j2 j3 [iwk iww]].
   fstep_cases H;
     try (match goal with
          | Hfp : fp (fts s i0') = _ |- _ =>
@@ -443,7 +449,7 @@ Proof.
                    | injection HIn as -> ->; rewrite Nat.eqb_refl; simpl;
                      first [ split; [reflexivity|];
                              destruct Hp0 as [Hb|[_ Hnz]]; [|exact Hnz];
-                             apply (holder_nonzero s i0' i0 j3 Hs Hb); rewrite Heqf; simpl; [lia|reflexivity]
+                             apply (holder_nonzero _ s i0' i0 j3 Hs Hb); rewrite Heqf; simpl; [lia|reflexivity]
                            | exfalso; pose proof (if2 i0') as E; rewrite Heqf in E; simpl in E;
                              specialize (E eq_refl);
                              rewrite (region_in_G _ ltac:(destruct Hp0 as [Hq|[Hq _]]; [left|right]; exact Hq)) in E;
